@@ -47,7 +47,8 @@ def gen_sonar(rnd, uid):
         out = []
         for _ in range(rnd.randint(0, 4)):
             l = rnd.randint(1, 9); c = rnd.randint(0, 20)
-            it = {"key": f"K{next(uid)}", "rule": rnd.choice(RULES["sonar"]), "status": rnd.choice(("OPEN", "OPEN", "TO_REVIEW", "CLOSED", "RESOLVED", "open", "REVIEWED")), "component": rnd.choice(("proj:", "org_proj:", "")) + rnd.choice(PATHS), "message": "m"}
+            # (a Sonar project key may itself contain colons - Maven groupId:artifactId -: the path is what follows the LAST colon)
+            it = {"key": f"K{next(uid)}", "rule": rnd.choice(RULES["sonar"]), "status": rnd.choice(("OPEN", "OPEN", "TO_REVIEW", "CLOSED", "RESOLVED", "open", "REVIEWED")), "component": rnd.choice(("proj:", "org_proj:", "", "com.example:billing-service:", "acme:platform:billing:")) + rnd.choice(PATHS), "message": "m"}
             if rnd.random() < 0.9: it["textRange"] = {"startLine": l, "endLine": l + rnd.choice((0, 0, 1)), "startOffset": c, "endOffset": c + 5}
             if rnd.random() < 0.2: it["flows"] = [{"locations": [{"component": it["component"], "textRange": {"startLine": 1, "endLine": 1, "startOffset": 0, "endOffset": 1}}]}]
             if kind == "hotspots" and rnd.random() < 0.5: it["ruleKey"] = it.pop("rule")
@@ -192,7 +193,7 @@ def e2e_jobs(tier, rnd):
     n = 4
     src = "import random\n" + "".join(f"v{i} = random.random()\n" for i in range(n))
     def sonar_item(i, kind):
-        it = {"key": f"K{i}", "status": "OPEN" if kind == "issues" else "TO_REVIEW", "component": "proj:code.py", "message": "m", "textRange": {"startLine": i + 2, "endLine": i + 2, "startOffset": 5, "endOffset": 20}}
+        it = {"key": f"K{i}", "status": "OPEN" if kind == "issues" else "TO_REVIEW", "component": ("proj:code.py", "com.example:svc:code.py", "code.py")[i % 3], "message": "m", "textRange": {"startLine": i + 2, "endLine": i + 2, "startOffset": 5, "endOffset": 20}}
         it["rule" if kind == "issues" or i % 2 else "ruleKey"] = "python:S2245"
         return it
     parts_all = []
